@@ -322,6 +322,20 @@ struct DmHarness : Harness
         p.ops.push_back("init");
         int nops = (int)g.range(4, 30);
         for (int i = 0; i < nops; ++i) {
+            // the answer depends on kind, pattern and enumeration only: the
+            // same selection is asked again later (directly, or after others)
+            if (g.chance(0.15)) {
+                std::vector<size_t> sels;
+                for (size_t j = 0; j < p.ops.size(); ++j)
+                    if (p.ops[j].compare(0, 4, "sel ") == 0)
+                        sels.push_back(j);
+                if (!sels.empty()) {
+                    size_t j = g.chance(0.5) ? sels.back()
+                                             : sels[g.below(sels.size())];
+                    p.ops.push_back(p.ops[j]);
+                    continue;
+                }
+            }
             int k = (int)g.below(12);
             int kind = g.chance(0.5) ? DeviceKind_Camera : DeviceKind_Storage;
             if (g.chance(0.08)) {
@@ -435,6 +449,7 @@ struct DmHarness : Harness
         int mock_slot = 0;
         struct DeviceManager dm = { 0 };
         bool inited = false;
+        std::map<std::string, std::string> asked; // selection -> answer
 
         auto first_match = [&](int kind, const std::string& pat,
                                bool* any) -> const EnumDev* {
@@ -639,6 +654,32 @@ struct DmHarness : Harness
                 free(exact);
                 if (rc != Device_Ok && rc != Device_Err)
                     oracle_fail("C12.bad_status", "select returned %d", (int)rc);
+                {
+                    // asked before on this manager? (the enumeration is fixed
+                    // after init, so the answer must be the same)
+                    char key[64];
+                    snprintf(key, sizeof(key), "%d/%d/", kind, pad);
+                    std::string k = key + op.s("pat", "-");
+                    char val[400];
+                    if (rc == Device_Ok)
+                        snprintf(val, sizeof(val), "Ok (%d,%d) '%.255s'",
+                                 (int)id.driver_id, (int)id.device_id, id.name);
+                    else
+                        snprintf(val, sizeof(val), "Err");
+                    auto it = asked.find(k);
+                    if (it == asked.end())
+                        asked[k] = val;
+                    else {
+                        probe("reach.selection_repeated");
+                        if (it->second != val)
+                            oracle_fail(
+                              "C12.selection_depends_on_history",
+                              "select(kind %d, pattern '%s') answered %s "
+                              "earlier on this device manager and answers %s "
+                              "now (the enumeration has not changed)",
+                              kind, pat.c_str(), it->second.c_str(), val);
+                    }
+                }
                 if (cls == "a") {
                     bool any;
                     const EnumDev* e = first_match(kind, pat, &any);
